@@ -86,6 +86,13 @@ fn check(rep: &Report, acc: &mut Acc, d: &Desc, rank: u64, total_consistent_with
             // the same description is what an encapsulator emits with re-use disabled and with re-use enabled but the
             // consecutive-re-use limit reached for this very label (the full label is due again)
             if l.is_addr() && d.payload.len() <= 8 {
+                // ... and after another label was sent and calls with THIS label were refused (nothing of them on the wire)
+                let mut enc = crate::sender::build_prior(DefaultCrc {}, crate::sender::Prior::OtherThenRefused, l);
+                let mut b = vec![0u8; want.len() + 3];
+                match do_encap(&mut enc, &d.payload, 0, d.type_field, l, &mut b) {
+                    EncOut::Completed(n) if b[..n.min(b.len())] == bytes[..] => {}
+                    other => viol(rep, &format!("C20|generate-vs-encapsulator|{}|after-refused-calls|{}", kn, other.class()), rank, format!("an encapsulator that sent another label and then refused calls with this label answers {:?} ({}) where the full-label packet {} is due", other, hexs(&b[..other.len().unwrap_or(0).min(b.len()).min(24)]), hexs(&bytes[..bytes.len().min(24)])), d),
+                }
                 let mut enc = crate::sender::build_prior(DefaultCrc {}, crate::sender::Prior::SameAtMax, l);
                 let mut b = vec![0u8; want.len() + 3];
                 match do_encap(&mut enc, &d.payload, 0, d.type_field, l, &mut b) {
